@@ -4,7 +4,8 @@ Real engines are built for EVERY cell of
     2^5 subsets of the removable operators {conjunction, disjunction, implication | aggregation, defuzzifier}
   x 4 rule shapes (no connective / `and` only / `or` only / both)
   x 2 defuzzifier kinds (integral: Centroid & co. over Triangle terms / weighted: WeightedAverage & co. over Constant terms)
-  x {1, 2} rule blocks
+  x ({1, 2} rule blocks under General activation  +  1 rule block under each of First, Last, Highest, Lowest, Proportional,
+     Threshold with parameters that do select the rules of positive degree: n >= 1, thresholds at 0)
 (quick: the canonical engine of the cell + one random variant; thorough: more variants), plus engines with random structure
 (disabled blocks / variables / rules, unloaded rules, outputs without terms, blocks without rules or activation method,
 every activation method, output variables in antecedents, hedges, `any`, parentheses, operators written without blanks,
@@ -119,9 +120,18 @@ def mk_rule(text, enabled=True, loaded=True):
     return {"text": text, "enabled": enabled, "loaded": loaded}
 
 
-def cell_engine(subset, shape, kind, nblocks, rng=None):
-    """The engine of a cell.  rng=None: the canonical (minimal) one; otherwise a random variant inside the cell."""
-    ins = ["a"] if rng is None and shape == "none" else ["a", "b"]
+def cell_activation(act, rng=None):
+    """An activation method of the cell's class that does select rules of positive degree (n >= 1, thresholds at 0)."""
+    n = 1 if rng is None else rng.choice([1, 1, 2, 3])
+    return {"General": ["General"], "First": ["First", n, 0.0], "Last": ["Last", n, 0.0], "Highest": ["Highest", n], "Lowest": ["Lowest", n],
+            "Proportional": ["Proportional"], "Threshold": ["Threshold", ">" if rng is None else rng.choice([">", ">=", "!="]), 0.0]}[act]
+
+
+def cell_engine(subset, shape, kind, nblocks, rng=None, act="General"):
+    """The engine of a cell.  rng=None: the canonical (minimal) one; otherwise a random variant inside the cell.
+    For the activation methods other than General the canonical engine has a second, connective-free rule, so that the
+    method has something to choose from."""
+    ins = ["a"] if rng is None and shape == "none" and act == "General" else ["a", "b"]
     nouts = 1 if rng is None else rng.choice([1, 1, 2])
     outs = ["o", "p"][:nouts]
     desc = {"name": "c19", "inputs": [mk_input(n, rng) for n in ins], "outputs": [mk_output(n, kind, rng) for n in outs], "blocks": [],
@@ -132,8 +142,10 @@ def cell_engine(subset, shape, kind, nblocks, rng=None):
             for _ in range(rng.choice([0, 1, 2])):
                 sub = rng.choice({"none": ["none"], "and": ["none", "and"], "or": ["none", "or"], "both": ["none", "and", "or", "both"]}[shape])
                 rules.insert(rng.randrange(len(rules) + 1), mk_rule(f"if {antecedent(rng, sub, ins)} then {consequent(rng, outs)}"))
+        if rng is None and act != "General":
+            rules.append(mk_rule(f"if {ins[0]} is hi then {outs[0]} is y"))
         desc["blocks"].append({"name": "" if rng is None or rng.random() < 0.5 else f"rb{bi}", "enabled": True, "conjunction": "Minimum",
-                               "disjunction": "Maximum", "implication": "Minimum", "activation": ["General"], "rules": rules})
+                               "disjunction": "Maximum", "implication": "Minimum", "activation": cell_activation(act, rng), "rules": rules})
     # remove the operators of the subset: everywhere in the canonical engine, in a random non-empty part otherwise
     blocks = list(range(nblocks))
     for op in subset:
@@ -565,6 +577,17 @@ def run(ctx, build, verdict, ev):
                     engines.append((cell, "canonical", cell_engine(subset, shape, kind, nblocks)))
                     for _ in range(n_variants):
                         engines.append((cell, "variant", cell_engine(subset, shape, kind, nblocks, rng)))
+    # the same operator subsets x rule shapes x defuzzifier kinds under each of the other six activation methods (one block)
+    n_act_variants = ctx.n(0, 2)
+    for act in ACTIVATIONS[1:]:
+        for subset_bits in itertools.product([0, 1], repeat=5):
+            subset = [op for op, bit in zip(OPS, subset_bits) if bit]
+            for shape in SHAPES:
+                for kind in ("integral", "weighted"):
+                    cell = f"{''.join(map(str, subset_bits))}/{shape}/{kind}/1/{act}"
+                    engines.append((cell, "canonical-activation", cell_engine(subset, shape, kind, 1, None, act)))
+                    for _ in range(n_act_variants):
+                        engines.append((cell, "variant-activation", cell_engine(subset, shape, kind, 1, rng, act)))
     cells = {c for c, _, _ in engines}
     for _ in range(n_random):
         engines.append(("random", "random", random_engine(rng, thorough)))
@@ -573,6 +596,7 @@ def run(ctx, build, verdict, ev):
     dist = {"ready": 0, "not_ready": 0, "raises": 0, "completes": 0, "ready_and_raises": 0, "non_general_cases": 0,
             "outside_ws": 0, "outside_wf": 0}
     by_kind = {}
+    act_cells = {"total": 0, "selected": 0, "raised_in_activation": 0}
     msg_kinds = {}
     outcome_kinds = {}
     signatures = set()
@@ -603,6 +627,18 @@ def run(ctx, build, verdict, ev):
             outcomes.append((row, out, text))
             per_row.append((out, trig))
             evaluations += 1
+        if origin == "canonical-activation":
+            # row 0 gives every rule of the canonical engine a positive degree: unless the activation phase itself raised,
+            # the method must have triggered a rule (otherwise the cell would not exercise what it is there for)
+            o0, t0 = per_row[0]
+            in_activation = re.match(r"ValueError: expected a (conjunction|disjunction) operator", outcomes[0][2]) is not None
+            act_cells["total"] += 1
+            if not in_activation:
+                act_cells["selected"] += bool(t0[0])
+                if not t0[0]:
+                    verdict.add_broken("harness", "activation-cell-selects-nothing", f"cell {cell}: no rule was triggered on row {rows[0]}: {json.dumps(desc)}")
+            else:
+                act_cells["raised_in_activation"] += 1
         if general:
             if len({o for o, _ in per_row}) != 1:
                 row_dependent += 1
@@ -673,12 +709,14 @@ def run(ctx, build, verdict, ev):
     c["evaluations"] = evaluations
     c["engines"] = len(engines)
     c["coq_cases"] = len(lits)
-    c["cells_covered"] = f"{len(cells)} of {32 * 4 * 2 * 2} (2^5 operator subsets x 4 rule shapes x 2 defuzzifier kinds x {{1,2}} blocks), each with its canonical engine"
+    c["cells_covered"] = (f"{len(cells)} of {32 * 4 * 2 * 2 + 6 * 32 * 4 * 2}: 2^5 operator subsets x 4 rule shapes x 2 defuzzifier kinds x ({{1,2}} blocks under "
+                          "General + 1 block under each of First, Last, Highest, Lowest, Proportional, Threshold), each with its canonical engine")
     c["distinct_nontrivial"] = len(signatures)
-    c["rule"] = ("every cell of 2^5 operator subsets x 4 rule shapes x integral/weighted x 1-2 blocks gets its canonical engine and "
-                 f"{n_variants} random variant(s); {n_random} engines with random structure; each engine is processed on {n_rows} finite rows. "
+    c["rule"] = ("every cell of 2^5 operator subsets x 4 rule shapes x integral/weighted x (1-2 blocks under General, 1 block under each of "
+                 "the six other activation methods, with parameters that select rules of positive degree) gets its canonical engine and "
+                 f"{n_variants} (General) / {n_act_variants} (others) random variant(s); {n_random} engines with random structure; each engine is processed on {n_rows} finite rows. "
                  "distinct_nontrivial = number of distinct (is_ready message-kind sequence with indices/counts masked, set of process outcomes) pairs observed")
-    c["distribution"] = {**dist, "by_origin": by_kind, "message_kinds": msg_kinds, "process_outcomes": outcome_kinds, "outcome_depends_on_row": row_dependent}
+    c["distribution"] = {**dist, "by_origin": by_kind, "message_kinds": msg_kinds, "process_outcomes": outcome_kinds, "activation_cells": act_cells, "outcome_depends_on_row": row_dependent}
     c["correspondence_mismatches"] = len(mismatches) + row_dependent
     c["oracle_violations"] = len(pending_violations)
     c["oracle_violation_signatures"] = sorted({v[1] for v in pending_violations})
